@@ -119,6 +119,28 @@ Proof. reflexivity. Qed.
 Lemma manifest_keep_is r : manifest_keep r = manifest_keep_d r.
 Proof. unfold manifest_keep, manifest_keep_d. destruct (aget policy_key (r_fields r)); reflexivity. Qed.
 
+(* the keep filter is the path condition of `keep = append(keep, m)` in filterManifestsToKeep *)
+Lemma manifest_keep_is_item r :
+  manifest_keep r =
+  p_keep (set_n "len(each(arg1).head.metadata.annotations)" (match aget policy_key (r_fields r) with Some _ => 1%Z | None => 0%Z end)
+         (set_b "has(each(arg1).head.metadata.annotations[helm.sh/resource-policy])"
+                (match aget policy_key (r_fields r) with Some _ => true | None => false end)
+         (set_str "ToLower(TrimSpace(each(arg1).head.metadata.annotations[helm.sh/resource-policy]))"
+                (match aget policy_key (r_fields r) with Some v => to_lower (trim_space v) | None => "" end) env0))).
+Proof. unfold manifest_keep. destruct (aget policy_key (r_fields r)); reflexivity. Qed.
+
+(* rollback's target revision: the model computes it in nat (rev cur - 1 truncates at 0), Go
+   in int; they agree for every stored revision number (>= 1) *)
+Lemma rollback_prev_is (v cur : nat) :
+  1 <= cur ->
+  znat (match v with 0 => cur - 1 | _ => v end)
+  = v_rb_prev (set_n "opt.Version" (znat v) (set_n "Last.version" (znat cur) env0)).
+Proof.
+  intros H. unfold v_rb_prev, c_rb_default. env_simpl.
+  destruct v as [|v']; [change (znat 0 =? 0)%Z with true; cbv iota; unfold znat; lia|].
+  replace (znat (S v') =? 0)%Z with false by (symmetry; apply Z.eqb_neq; unfold znat; lia). reflexivity.
+Qed.
+
 (* validate.go checkOwnership = three requireValue *)
 Lemma owned_by_is rel_name rel_ns f :
   owned_by rel_name rel_ns f
